@@ -26,7 +26,7 @@ RULE = (
     "history present or a -n/-sf generation present; distinct by canonical scenario hash."
 )
 ASSUMPTIONS = ["default ignore patterns only", "no hash collisions"]
-BUDGET = {"quick": (300, 4), "thorough": (10000, 16)}
+BUDGET = {"quick": (300, 4), "thorough": (80000, 16)}
 REQUIRED = ["flat", "root_level_mutation", "deep_mutation", "multi_format", "nested", "-n_generation", "sf_generation", "unchanged", "differing_nested_formats"]
 
 P1 = {
